@@ -35,8 +35,9 @@ def mk_full_info(c, max_size=10 ** 9):
 
 
 def delays_of(c, res):
-    """the abstraction's delay terms D(res_k / min res) as introduced by the round(log2) model"""
-    seen = c.ghost.get("roundlog2", [])
+    """the delay terms the code computed: the integers it obtained from math.log2 of a resolution ratio
+    (by round(), or -- after a code change -- by int())"""
+    seen = c.ghost.get("roundlog2", []) + c.ghost.get("trunclog2", [])
     return [d for (_, d) in seen]
 
 
@@ -115,6 +116,20 @@ class FillScalesOuter(Contract):
         yield ("one-delay-per-axis", len(delays) == 3)
         if len(delays) != 3:
             return
+        # the delays are the documented ones: round(log2(res_k / finest resolution)) -- the same function
+        # symbol as the round(math.log2(.)) model, so any other rounding of the logarithm is a different term
+        from pyvc.interp import _ROUNDLOG2
+        finest = smin(smin(self.res[0], self.res[1]), self.res[2])
+        for k in range(3):
+            ratio = self.res[k] / finest
+            sd = c.int(f"documented_delay{k}")
+            c.assume(SBool(core._i(sd) == _ROUNDLOG2(core._r(ratio))))
+            # meaning of the spec's function for the ratios in the stated range (counterexamples are then
+            # real resolutions at which the two roundings differ): 2^(sd-1/2) <= ratio <= 2^(sd+1/2)
+            c.assume(And(sd >= 0, sd <= 64))
+            for j in range(0, 65):
+                c.assume(implies(sd == j, And(2 * ratio * ratio >= (1 << (2 * j)), ratio * ratio <= (1 << (2 * j + 1)))))
+            yield (f"delay[{k}]==round(log2(res[{k}]/finest-resolution))", delays[k] == sd)
         # stated bound: voxel-size ratios between axes are below 2^60
         c.assume(And(*[d <= 60 for d in delays]))
         # closure invariant handed to downscale_info
@@ -139,6 +154,8 @@ class FillScalesOuter(Contract):
             yield (f"last-level-size[{k}]<=2*target", ceil_div_term(c, self.size[k], f) <= 2 * t)
 
     def replay(self, model, cfg, ob_name):
+        if ob_name.startswith("delay["):
+            model = dict(model, size0=1000, size1=1000, size2=1000)     # a wrong delay shows in the level sizes
         return native_scales_check(model, cfg)
 
     bounded_bound = "sizes from {1,3,64,65,129,1000}, resolutions from {0.8,1,1.2,3,10}"
@@ -264,6 +281,8 @@ def native_scales_check(model, cfg, clauses=("sizes", "last", "chunks")):
         res = []
         for i in range(3):
             v = model.get(f"res{i}", [1, 1])
+            if isinstance(v, str):                     # algebraic number printed by z3: '1.4142135623?'
+                v = v.rstrip("?")
             res.append(float(Fraction(v[0], v[1])) if isinstance(v, list) else float(v))
         res = [r if 1e-3 < r < 1e9 else 1.0 for r in res]
     info = {"type": "image", "data_type": "uint8", "num_channels": 1, "scales": [
